@@ -87,6 +87,7 @@ class Walker(object):
         self.dups = 0
         self.steps = 0
         self.edges_covered = set()
+        self.skipped = 0
 
     def _do(self, world, hist, label, to_key):
         """returns True iff the real object followed the edge"""
@@ -96,6 +97,9 @@ class Walker(object):
         except Exception as ex:  # the adapter catches what the spec expects; anything else is a finding
             obs = {'_unexpected': '%s: %s' % (type(ex).__name__, ex)}
         bad = []
+        if obs.get('_skip'):
+            self.skipped += 1      # the concretisation leaves the modelled domain here (not judged)
+            return False
         if '_unexpected' in obs:
             bad.append(('NoUnexpectedException', {'observed': obs['_unexpected']}))
         else:
